@@ -135,7 +135,7 @@ def _files_for(name, items, fvec, revert=()):
 
 def _work(args):
     """one golden test: original run (records), nvar rewritten variants, localisation of a mismatch"""
-    (bdir, hooks, flavour, t, nvar, lvecs, fvecs, sd, npairs, nsplit) = args
+    (bdir, hooks, flavour, t, nvar, lvecs, fvecs, sd, npairs, nsplit, forms, gvecs) = args
     from vlib.build import Build
     import random
     b = Build(bdir, flavour, hooks)
@@ -178,7 +178,7 @@ def _work(args):
         plan.append({"kind": "file", "wrap": "macro", "blanklines": False, "crlf": "lf", "forced": True})
         plan.append({"kind": "file", "wrap": "include", "blanklines": False, "crlf": "lf", "forced": True})
     for vi, fvec in enumerate(plan):
-        items, stats = srcline.rewrite_file(data, recs, fvec, lvecs, r)
+        items, stats = srcline.rewrite_file(data, recs, fvec, lvecs, r, forms=forms, gvecs=gvecs)
         main, extra = _files_for(name, items, fvec)
         want_tr = hooks and vi == 0 and npairs > 0
         v = _assemble_variant(b, t, main, extra, events="file,stmt,split" if want_tr else None)
@@ -190,12 +190,17 @@ def _work(args):
             recs2 = srcline.records_by_line(srcline.split_records(v["trace"], 1), [it["new"] for it in items])
             ch = srcline.changed_indices(items)
             r.shuffle(ch)
+            # statements with a re-spelled compound parameter first: they are few and carry the second split
+            ch.sort(key=lambda k: 0 if (items[k].get("info") or {}).get("nest_rs") else 1)
             for k in ch:
                 if len(out["pairs"]) >= npairs:
                     break
                 x = recs2.get(k + 1)
                 if x is not None and x["e"]["raw"] == items[k]["new"] and not srcline.classify(items[k]):
-                    out["pairs"].append(srcline.trace_event(x, "PAIR", orig=items[k]["orig"]))
+                    inf = items[k].get("info") or {}
+                    r0 = recs.get(items[k]["n"]) or {}
+                    out["pairs"].append(srcline.trace_event(x, "PAIR", orig=items[k]["orig"], nest=inf.get("nest_rs"),
+                                                            fin0=(r0.get("opu", ""), r0.get("argc", 0))))
         if not rec["equal"]:
             # localise: which rewritten lines are needed for the difference?  Lines that run into a deviation
             # of the pinned tree that is already recorded are set aside (all of that class) and the search goes on.
@@ -289,6 +294,21 @@ def _chain_job(args):
             "same": rv.rc == 0 and rr.rc == 0 and data(rv) == data(rr) and data(rv) is not None, "lines": lines}
 
 
+def _cline_source(cl, which):
+    """a generated compound statement (SourceLine_Nest.tla, kind "cline") as a complete source"""
+    return ("\tcpu\t%s\n" % srcline.text(cl["cpu"]) + "".join(srcline.text(x) + "\n" for x in cl["before"]) +
+            srcline.text(cl[which]) + "\n" + "".join(srcline.text(x) + "\n" for x in cl["after"]))
+
+
+def _code(res):
+    pr = res.parsed() if res.p is not None else None
+    return [(x.seg, x.start, bytes(x.data)) for x in pr.data_records()] if pr is not None else None
+
+
+# deviations that concern text the manual does not describe: reported as SPEC-DRIFT, never as a violation
+DRIFT_CLASSES = {"preproc-define-gaps"}
+
+
 def _key(name, cause):
     """key for known findings: the recorded deviation the culprit line runs into (None = unexplained)"""
     return {"kind": "image" if cause["rc"] == 0 else "rejected", "deviation": cause["cls"] or "none"}
@@ -303,6 +323,13 @@ def main(tier):
                         "the real assembler logged them; other lines are left in their original spelling",
                         "TLC explores the line model up to 2 parameters per line over the stated token alphabet",
                         "hooks: %s" % ("split/stmt events" if bld.hooks else "unavailable (black-box replay only)")]
+    # (M)+(G) compound operand fields: runs beside the line model (its output is needed for the corpus rewrite)
+    import concurrent.futures as cf
+    scratch()
+    nest_cfgs = ["SourceLine_Nest.cfg"] if quick else ["SourceLine_Nest3.cfg", "SourceLine_NestP.cfg"]
+    nest_pool = cf.ThreadPoolExecutor(max_workers=1)
+    nest_fut = nest_pool.submit(lambda: [tlc.run("SourceLine_Nest", c_, workers=2 if quick else 4, timeout=1700, mem="4g")
+                                         for c_ in nest_cfgs])
     # (M) -------------------------------------------------------------------------------------------
     cfgs = ["SourceLine_MC.cfg"] if quick else ["SourceLine_MC3.cfg", "SourceLine_MCP.cfg"]
     for cfg in cfgs:
@@ -320,7 +347,23 @@ def main(tier):
     lvecs = [v for v in vecs if v.get("kind") != "file"]
     if not fvecs or not lvecs:
         raise CheckError("SourceLine_Gen printed no vectors")
-    rep.part("generation", line_vectors=len(lvecs), file_vectors=len(fvecs))
+    with Phase("TLC SourceLine_Nest (started beside the line model)"):
+        nest_runs = nest_fut.result()
+    nest_pool.shutdown()
+    nvecs = []
+    for c_, nr in zip(nest_cfgs, nest_runs):
+        tlc.must(nr, "SourceLine_Nest(%s)" % c_)
+        if nr.violation:
+            raise CheckError("SourceLine_Nest(%s): the compound-field model violates its invariants: %s" % (c_, nr.violation[:900]))
+        rep.model("SourceLine_Nest(%s)" % c_, nr)
+        nvecs += [v for (tag, v) in nr.printed if tag == "OUT"]
+    forms = [v for v in nvecs if v.get("kind") == "form"]
+    gvecs = [v["g"] for v in nvecs if v.get("kind") == "gapvec"]
+    clines = [v for v in nvecs if v.get("kind") == "cline"]
+    if not forms or not gvecs or not clines:
+        raise CheckError("SourceLine_Nest printed no forms / gap vectors / statements")
+    rep.part("generation", line_vectors=len(lvecs), file_vectors=len(fvecs), gap_vectors=len(gvecs),
+             compound_forms=len(forms), compound_statement_lines=len(clines))
     tests = aslrun.corpus()
     if not tests:
         raise CheckError("golden corpus not found under %s/tests" % REPO)
@@ -334,8 +377,7 @@ def main(tier):
         # make sure every file vector is used across the suite: rotate through the list
         fv = [fvecs[(ti * nvar + k) % len(fvecs)] for k in range(nvar)] if quick else fv[:nvar]
         jobs.append((bld.dir, bld.hooks, bld.flavour, t, nvar, lvecs, fv, seed(), 12 if quick else 200,
-                     25 if quick else None))
-    import concurrent.futures as cf
+                     25 if quick else None, forms, gvecs))
     with Phase("rewrite + assemble %d tests x %d variants" % (len(tests), nvar)):
         with cf.ProcessPoolExecutor(max_workers=NCPU) as ex:
             results = list(ex.map(_work, jobs, chunksize=1))
@@ -353,6 +395,10 @@ def main(tier):
             if v["timeout"] or v["rc"] != 0 or not v["equal"]:
                 for c in v.get("causes") or [{"cls": None, "cause": "not localised", "lines": [], "rc": v["rc"],
                                               "msg": v["msg"], "files": None}]:
+                    if c.get("cls") in DRIFT_CLASSES:
+                        rep.drift("test %s: re-spelling the gaps of a preprocessor line (not described in the manual) "
+                                  "changes the result: %s" % (res["test"], c["lines"]))
+                        continue
                     what = ("test %s rewritten with %s: %s; needed for the difference: %s %s" % (
                         res["test"], {k: v["fvec"][k] for k in ("wrap", "blanklines", "crlf")},
                         "assembler rc=%s %s" % (c["rc"], c["msg"][-200:]) if c["rc"] != 0 else "image differs from .ori",
@@ -370,10 +416,47 @@ def main(tier):
              lines_unshaped=sum(v["stats"]["unshaped"] for x in results for v in x["variants"]),
              lines_untouched=sum(v["stats"]["untouched"] for x in results for v in x["variants"]),
              macro_regions=sum(v["stats"]["regions"] for x in results for v in x["variants"]),
-             colon_flips=sum(v["stats"]["colon"] for x in results for v in x["variants"]))
+             colon_flips=sum(v["stats"]["colon"] for x in results for v in x["variants"]),
+             compound_parameters_respelled=sum(v["stats"].get("nest", 0) for x in results for v in x["variants"]),
+             tests_with_compound_parameters=sum(1 for x in results if any(v["stats"].get("nest", 0) for v in x["variants"])))
     for res in results[:2]:
         v = res["variants"][0]
         rep.sample({"test": res["test"], "file_vector": v["fvec"], "stats": v["stats"], "equal_to_ori": v["equal"]})
+    # (G) compound statements x gap vectors, as TLC rendered them: same code as the single-blank spelling -----
+    cnames = sorted({cl["name"] for cl in clines})
+    first = {nm: next(cl for cl in clines if cl["name"] == nm) for nm in cnames}
+    cjobs = [{"sources": {"a.asm": _cline_source(first[nm], "ref")}, "opts": ["-q"]} for nm in cnames]
+    cjobs += [{"sources": {"a.asm": _cline_source(cl, "var")}, "opts": ["-q"]} for cl in clines]
+    with Phase("compound statements: %d statements x gap vectors = %d programs" % (len(cnames), len(clines))):
+        clres = aslrun.assemble_many(bld, cjobs)
+    refcode = {}
+    for nm, res in zip(cnames, clres):
+        refcode[nm] = _code(res) if res.rc == 0 else None
+        if not refcode[nm]:
+            raise CheckError("the reference spelling of the compound statement %s does not assemble: %s" % (
+                nm, (res.out + res.err)[-300:]))
+    for cl, res in zip(clines, clres[len(cnames):]):
+        rep.evaluated()
+        rep.distinct(_cline_source(cl, "var"), cl["var"] != cl["ref"])
+        got = _code(res) if res.rc == 0 else None
+        if got != refcode[cl["name"]]:
+            what = ("compound statement %r (%s): with the gaps %r between its inner fields rc=%s code %s, with single blanks "
+                    "(%r) code %s; %s" % (srcline.text(cl["var"]), cl["name"], [srcline.text(x) for x in cl["g"]], res.rc,
+                                          [d.hex() for (_, _, d) in got] if got else None, srcline.text(cl["ref"]),
+                                          [d.hex() for (_, _, d) in refcode[cl["name"]]], (res.out + res.err)[-200:]))
+            if cl["level"] != "manual":
+                rep.drift(what)
+            else:
+                rep.violation(what, case={"test": "(generated compound statement)", "cline": cl["name"], "gaps": cl["g"],
+                                          "rs": cl["rs"]},
+                              files={"a.asm": _cline_source(cl, "var"), "a_ref.asm": _cline_source(cl, "ref")},
+                              key={"kind": "cline", "deviation": "none"})
+    rep.traces(len(cjobs))
+    rep.part("compound_statements", statements=len(cnames), programs=len(clines),
+             splitters=sorted({cl["rs"] for cl in clines}))
+    if clines:
+        rep.sample({"compound_statement": srcline.text(clines[-1]["var"]), "reference": srcline.text(clines[-1]["ref"]),
+                    "same_code": True})
     # (M)+(G) body collector: wrap precondition and construct trees ---------------------------------------
     with Phase("TLC BodyCollect_MC"):
         bc = tlc.must(tlc.run("BodyCollect_MC", "BodyCollect_MC.cfg" if quick else "BodyCollect_MC6.cfg", workers=min(NCPU, 8),
@@ -504,6 +587,13 @@ def replay(path):
         a = aslrun.assemble(bld, srcs, opts=["-q"])
         got = [x for rec_ in a.parsed().data_records() for x in rec_.data] if a.p is not None else None
         log("replay: rc=%s code %s, specification expects %s\n%s" % (a.rc, got, case["bytes"], a.out + a.err))
+        log("recorded: %s" % v["what"])
+        return 0
+    if "cline" in case:
+        a = aslrun.assemble(bld, {"a.asm": open(os.path.join(path, "a.asm"), "rb").read()}, opts=["-q"])
+        b = aslrun.assemble(bld, {"a.asm": open(os.path.join(path, "a_ref.asm"), "rb").read()}, opts=["-q"])
+        log("replay: re-spelled gaps rc=%s code %s; single blanks rc=%s code %s\n%s" % (
+            a.rc, _code(a), b.rc, _code(b), a.out + a.err))
         log("recorded: %s" % v["what"])
         return 0
     if "chains" in case:
